@@ -510,7 +510,7 @@ def op_for(draw, cell):
     if kind in ('set', 'del', 'read', 'set_datatype'):
         op['spell'] = draw(st.sampled_from(SPELLS))
     if kind in ('setidx', 'delidx', 'remove'):
-        op['i'] = draw(st.integers(-1, 3))
+        op['i'] = draw(st.integers(-4, 3))
     return op
 
 
